@@ -1,6 +1,8 @@
 import MorfuseModel.Sched.Guard
 import MorfuseModel.Sched.TimerLemmas
 import MorfuseModel.Unwind.Lemmas
+import MorfuseModel.Unwind.Spin
+import MorfuseModel.Unwind.Timing
 /-!
 # C14 — runaway and over-deep scripts are stopped
 
@@ -409,5 +411,195 @@ set_option maxRecDepth 100000 in
 example : (run exWake 60 (startCall exWake {} 0)).stack = [] ∧ (run exWake 60 (startCall exWake {} 0)).exc = some .abort ∧
     (run exWake 60 (startCall exWake {} 0)).cur = none ∧ (run exWake 60 (startCall exWake {} 0)).depth = 0 ∧
     (run exWake 60 (startCall exWake {} 0)).lvl = [] ∧ (run exWake 60 (startCall exWake {} 0)).threads.length = 3 := by decide
+
+/-! ## Round 2: the time check is `Guard.runLoop`'s check; termination of the runaway loop with a bound;
+protection off diverges; stranded waiters -/
+
+/-- **The model's time check is the guard model's check.**  For a host call on a label of the plain
+    runaway shape (`Spin`: only non-yielding opcodes and jumps, never ends), with a non-zero limit: let
+    `clk j` be the j-th reading of the injected clock counted from the moment the deadline is taken.  If
+    `Sched.Guard.runLoop clk limit fuel 1 = some k` (the guard model interrupts after instruction `k`), then in
+    the unwind model: after `2k - 1` steps instruction `k` has run and its check is pending with
+    `nextTime = clk 0 + limit` and `cmdTime = clk k`, no exception was raised before, step `2k` raises
+    `CommandOverflow` — and with protection on the host call has returned `CommandOverflow` after `2k + 3`
+    steps with the nesting counter restored and no current thread.  So `C14_overflow_bounded` /
+    `C14_overflow_bounded_by_rate` speak about the unwind model's activations. -/
+theorem C14_unwind_time_check_is_guard (E : Env) (code : List Op) (l : Nat) (hcode : E.prog.getD l [] = code)
+    (hspin : Spin code) (hne : 0 < code.length) (s0 : St) (hfresh : find s0.threads s0.nextTid = none)
+    (hd : s0.depth ≤ E.cfg.maxDepth) (hub : s0.ub = false) (fuel k : Nat)
+    (hg : Guard.runLoop (clkAt E.inc s0.now s0.reads) E.cfg.maxExec fuel 1 = some k) :
+    PostJ E code l s0.nextTid s0.cur s0.now s0.reads k (run E (2 * k - 1) (startCall E s0 l)) ∧
+    (∀ j, j < 2 * k → (run E j (startCall E s0 l)).exc = none) ∧
+    (run E (2 * k) (startCall E s0 l)).exc = some .overflow ∧
+    (E.cfg.prot = true → s0.cur = none →
+      (run E (2 * k + 3) (startCall E s0 l)).stack = [] ∧ (run E (2 * k + 3) (startCall E s0 l)).exc = some .overflow ∧
+      (run E (2 * k + 3) (startCall E s0 l)).depth = s0.depth ∧ (run E (2 * k + 3) (startCall E s0 l)).cur = none) := by
+  obtain ⟨hL, hk1, hlate, hfirst⟩ := Guard.runLoop_some _ _ _ _ _ hg
+  have h1 := postJ_one E code l hcode hspin hne s0 hfresh hd hub hL
+  have hrun1 : ∀ j, run E (j + 1) (startCall E s0 l) = run E j (step E (startCall E s0 l)) := fun j => rfl
+  have hpost : ∀ j, j + 1 ≤ k → PostJ E code l s0.nextTid s0.cur s0.now s0.reads (j + 1) (run E (2 * j + 1) (startCall E s0 l)) := by
+    intro j hj
+    rw [hrun1]
+    exact postJ_run E code l hcode hspin _ _ _ _ _ h1 j (fun i a b => hfirst i a (by omega))
+  have hP : PostJ E code l s0.nextTid s0.cur s0.now s0.reads k (run E (2 * k - 1) (startCall E s0 l)) := by
+    have := hpost (k - 1) (by omega)
+    rw [show k - 1 + 1 = k by omega, show 2 * (k - 1) + 1 = 2 * k - 1 by omega] at this
+    exact this
+  have hstepk : run E (2 * k) (startCall E s0 l) = { (run E (2 * k - 1) (startCall E s0 l)) with exc := some .overflow } := by
+    rw [show 2 * k = (2 * k - 1) + 1 by omega, run_add]
+    simp only [run]
+    exact spin_post_fire E code l _ _ _ _ _ _ hP.stack hP.exc hP.ub hP.thr (by omega) hlate
+  refine ⟨hP, ?_, by rw [hstepk], ?_⟩
+  · -- no exception before step 2k: every earlier state is `PostJ` or the fetch state between two of them
+    intro j hj
+    have hpar : j = 2 * (j / 2) ∨ j = 2 * (j / 2) + 1 := by omega
+    generalize j / 2 = m at hpar
+    rcases hpar with hm | hm
+    · -- j = 2m: the state after the check of instruction m passed (or the start)
+      subst hm
+      cases m with
+      | zero => exact (spin_start E code l hne s0 hfresh hd hub hL).2.1
+      | succ m =>
+        have hp := hpost m (by omega)
+        rw [show 2 * (m + 1) = (2 * m + 1) + 1 by omega, run_add]
+        simp only [run]
+        exact (spin_post_pass E code l _ _ _ _ _ _ hp.stack hp.exc hp.ub hp.thr (Or.inr (hfirst (m + 1) (by omega) (by omega)))).2.1
+    · subst hm
+      exact (hpost m (by omega)).exc
+  · intro hp hc
+    have hst : (run E (2 * k) (startCall E s0 l)).stack.length = 3 := by rw [hstepk]; simp [hP.stack]
+    obtain ⟨_, hb⟩ := C14_unwind_restores E s0 l (2 * k) hc
+    have := hb .overflow (by rw [hstepk]) rfl (fun _ => hp) (by rw [hstepk]; exact hP.ub)
+    rw [hst, ← run_add] at this
+    exact this
+
+/-- **A runaway loop is interrupted within a bounded number of steps.**  Protection on, limit `L > 0`, a
+    clock that advances by at least `δ > 0` per reading: a host call on a `Spin` label returns
+    `CommandOverflow` after at most `2 · (L / δ + 1) + 3` machine steps (two per instruction, three frames to
+    unwind), i.e. after at most `L / δ + 1` instructions, restored.  (Composition of
+    `C14_overflow_bounded_by_rate` with `C14_unwind_time_check_is_guard`.) -/
+theorem C14_unwind_spin_terminates (E : Env) (code : List Op) (l : Nat) (hcode : E.prog.getD l [] = code)
+    (hspin : Spin code) (hne : 0 < code.length) (s0 : St) (hfresh : find s0.threads s0.nextTid = none)
+    (hd : s0.depth ≤ E.cfg.maxDepth) (hub : s0.ub = false) (hc : s0.cur = none) (hp : E.cfg.prot = true)
+    (hL : E.cfg.maxExec ≠ 0) (δ : Nat) (hδ : 0 < δ) (hinc : ∀ i, E.inc i ≥ δ) :
+    ∃ n, n ≤ 2 * (E.cfg.maxExec / δ + 1) + 3 ∧
+      (run E n (startCall E s0 l)).stack = [] ∧ (run E n (startCall E s0 l)).exc = some .overflow ∧
+      (run E n (startCall E s0 l)).depth = s0.depth ∧ (run E n (startCall E s0 l)).cur = none := by
+  obtain ⟨k, hk, hg⟩ := Guard.C14_overflow_bounded_by_rate (clkAt E.inc s0.now s0.reads) E.cfg.maxExec δ hL hδ
+    (fun j => by simp only [clkAt]; have := hinc (s0.reads + j); omega)
+  obtain ⟨_, _, _, h4⟩ := C14_unwind_time_check_is_guard E code l hcode hspin hne s0 hfresh hd hub (k + 1) k hg
+  exact ⟨2 * k + 3, by omega, h4 hp hc⟩
+
+/-- **Protection off: the runaway loop never returns** (by design — the handler only logs and extends the
+    deadline), whatever the limit and the clock: after any number of steps the three frames are still on the
+    native stack; and the Debug stream receives exactly one "Update of script position" block per deadline
+    extension if it is attached, nothing otherwise (nothing is written to any other stream). -/
+theorem C14_unwind_protection_off_diverges (E : Env) (code : List Op) (l : Nat) (hcode : E.prog.getD l [] = code)
+    (hspin : Spin code) (hne : 0 < code.length) (s0 : St) (hfresh : find s0.threads s0.nextTid = none)
+    (hd : s0.depth ≤ E.cfg.maxDepth) (hub : s0.ub = false) (hp : E.cfg.prot = false) (k : Nat) :
+    (run E k (startCall E s0 l)).stack.length = 3 ∧ halted (run E k (startCall E s0 l)) = false ∧
+    (runD E k (startCall E s0 l, [])).2 =
+      List.replicate (if E.cfg.sDbg = true then extensions E k (startCall E s0 l) else 0) .dbgUpdate := by
+  have h0 : Spinning code l s0.nextTid s0.cur (startCall E s0 l) := by
+    by_cases hL : E.cfg.maxExec = 0
+    · obtain ⟨a1, a2, a3, a4⟩ := spin_start0 E code l hne s0 hfresh hd hub hL
+      exact ⟨a3, a4, _, _, _, _, a1, Or.inl a2⟩
+    · obtain ⟨a1, a2, a3, _, _, _, a7⟩ := spin_start E code l hne s0 hfresh hd hub hL
+      exact ⟨a3, a7, _, _, _, _, a1, Or.inl a2⟩
+  have hk := spinning_run E code l hcode hspin hp _ _ k _ h0
+  obtain ⟨_, _, _, _, hst, _⟩ := hk.shape
+  refine ⟨by rw [hst]; rfl, by simp [halted, hst, hk.ub], ?_⟩
+  simpa using spinning_diag_rate E code l hcode hspin hp _ _ k _ [] h0
+
+/-- a `notify` that wakes an aborting waiter followed by two more waiters, and a later `notify` of the
+    same name: label 0 spawns one thread on label 1 (`waittill k7; error "x" 1`) and two on label 2
+    (`waittill k7; println m40`), then notifies; label 3 notifies again -/
+def exStrand : Env :=
+  { cfg := { prot := true, maxExec := 0, maxDepth := 5 }, inc := fun _ => 0,
+    prog := [[.spawn 1 false, .spawn 2 false, .spawn 2 false, .notify 7, .print 8, .done], [.waittill 7, .raise true, .done],
+             [.waittill 7, .print 40, .done], [.notify 7, .print 9, .done]] }
+def exStrandA : St × List Diag := runD exStrand 80 (startCall exStrand {} 0, [])
+def exStrandB : St × List Diag := runD exStrand 40 (startCall exStrand { exStrandA.1 with exc := none } 3, [])
+
+set_option maxRecDepth 100000 in
+/-- **An abort in one of several woken waiters strands the waiters behind it** (as the code is:
+    `Listener::Unregister` takes every waiter off both tables before it resumes the first one, and the
+    exception leaves its loop).  Witness: the host call returns the abort; threads 3 and 4 are still
+    `Waiting` with an idle VM at the instruction after their `waittill`, in no table and not in the timer, and
+    have printed nothing; a later `notify` of the same name returns normally, prints its own marker and
+    resumes neither of them. -/
+theorem C14_unwind_abort_strands_later_waiters :
+    exStrandA.1.stack = [] ∧ exStrandA.1.exc = some .abort ∧ exStrandA.1.cur = none ∧ exStrandA.1.depth = 0 ∧
+    exStrandA.1.threads.map (fun p => (p.1, p.2.ts, p.2.vs, p.2.pc)) =
+      [(1, .running, .idling, 4), (2, .running, .idling, 2), (3, .waiting, .idling, 1), (4, .waiting, .idling, 1)] ∧
+    exStrandA.1.lvl = [] ∧ exStrandA.1.timer.elems = [] ∧ exStrandA.2 = [.errPos, .errPos] ∧
+    exStrandB.1.stack = [] ∧ exStrandB.1.exc = none ∧ exStrandB.2 = [.out 9] ∧
+    exStrandB.1.threads.map (fun p => (p.1, p.2.ts, p.2.vs, p.2.pc)) =
+      [(1, .running, .idling, 4), (2, .running, .idling, 2), (3, .waiting, .idling, 1), (4, .waiting, .idling, 1)] := by
+  decide
+
+/-! ### non-vacuity of the round-2 theorems -/
+example : Spin [.nop, .nop, .jmp 0] := by
+  intro pc h
+  have : pc = 0 ∨ pc = 1 ∨ pc = 2 := by simp at h; omega
+  rcases this with h | h | h <;> subst h <;> simp
+/-- `exLoop` (limit 5, clock +1): the guard model interrupts after instruction 5, the unwind model raises at
+    step 10 and has returned at step 13 = 2·5 + 3 ≤ 2·(5/1 + 1) + 3 = 15 -/
+example : Guard.runLoop (clkAt exLoop.inc 0 0) 5 6 1 = some 5 := by decide
+example : (run exLoop 9 (startCall exLoop {} 0)).exc = none ∧ (run exLoop 10 (startCall exLoop {} 0)).exc = some .overflow ∧
+    (run exLoop 12 (startCall exLoop {} 0)).stack ≠ [] ∧ (run exLoop 13 (startCall exLoop {} 0)).stack = [] := by decide
+/-- the bound is met: limit 5, clock +2 per reading, bound 2·(5/2 + 1) + 3 = 9: still running after 8 steps -/
+def exTight : Env := { cfg := { prot := true, maxExec := 5, maxDepth := 2 }, prog := [[.jmp 0]], inc := fun _ => 2 }
+example : (run exTight 8 (startCall exTight {} 0)).stack ≠ [] ∧ (run exTight 9 (startCall exTight {} 0)).stack = [] ∧
+    (run exTight 9 (startCall exTight {} 0)).exc = some .overflow := by decide
+/-- protection off, 40 steps: still three frames, three extensions so far, three Debug blocks -/
+example : (run exLoopOff 40 (startCall exLoopOff {} 0)).stack.length = 3 ∧ extensions exLoopOff 40 (startCall exLoopOff {} 0) = 3 ∧
+    (runD exLoopOff 40 (startCall exLoopOff {} 0, [])).2 = [.dbgUpdate, .dbgUpdate, .dbgUpdate] := by decide
+
+/-- **Every activation has its own deadline and a bounded instruction budget** (all programs, all nestings,
+    protection on or off).  Limit `L ≠ 0`, clock advancing by at least `δ > 0` per reading: in every state
+    reached during a host call, for every `ScriptVM::Execute` frame on the native stack with `n` instructions
+    executed since its deadline was (re)taken: the deadline is non-zero; whenever its time check passes
+    (`cmdTime < nextTime`) then `n·δ < L`, so `n ≤ L/δ`; and a check evaluated after `n ≥ L/δ + 1` instructions
+    finds `cmdTime ≥ nextTime`, i.e. fires if the VM is still running.  Hence no activation executes more
+    than `L/δ + 1` checked instructions per deadline — the step from which termination of nested programs
+    follows by induction over the nesting (bounded by `C14_unwind_depth_limit`); see notes/C14-design.md §3
+    for what is and is not proved about whole host calls. -/
+theorem C14_unwind_activation_bounded (E : Env) (δ : Nat) (hL : E.cfg.maxExec ≠ 0) (hδ : 0 < δ) (hinc : ∀ i, E.inc i ≥ δ)
+    (s0 : St) (label k : Nat) (t : Tid) (dl ct n : Nat) (post : Bool)
+    (hmem : Frame.vm t dl ct post n ∈ (run E k (startCall E s0 label)).stack) :
+    dl ≠ 0 ∧ (ct < dl → n * δ < E.cfg.maxExec ∧ n ≤ E.cfg.maxExec / δ) ∧
+    (post = true → n ≥ E.cfg.maxExec / δ + 1 → ct ≥ dl) := by
+  have h := run_allOK E δ hL hinc k _ (startCall_allOK E δ hL hinc s0 label) _ hmem
+  simp only [FrameOK] at h
+  obtain ⟨h1, _, h3⟩ := h
+  refine ⟨h1, ?_, ?_⟩
+  · intro hlt
+    have hn : n * δ < E.cfg.maxExec := by cases post <;> simp at h3 <;> omega
+    exact ⟨hn, (Nat.le_div_iff_mul_le hδ).mpr (Nat.le_of_lt hn)⟩
+  · intro hp hn
+    subst hp
+    simp at h3
+    have h4 : E.cfg.maxExec < (E.cfg.maxExec / δ + 1) * δ := by
+      have := Nat.lt_mul_div_succ E.cfg.maxExec hδ
+      rw [Nat.mul_comm]; exact this
+    have h5 : (E.cfg.maxExec / δ + 1) * δ ≤ n * δ := Nat.mul_le_mul_right δ hn
+    omega
+
+/-- the same for a frame (`ScriptContext::Execute`): scheduler-resumed threads -/
+theorem C14_unwind_activation_bounded_late (E : Env) (δ : Nat) (hL : E.cfg.maxExec ≠ 0) (hδ : 0 < δ) (hinc : ∀ i, E.inc i ≥ δ)
+    (s0 : St) (k : Nat) (t : Tid) (dl ct n : Nat) (post : Bool)
+    (hmem : Frame.vm t dl ct post n ∈ (run E k (startExecute E s0)).stack) :
+    dl ≠ 0 ∧ (ct < dl → n * δ < E.cfg.maxExec) := by
+  have h := run_allOK E δ hL hinc k _ (startExecute_allOK E δ s0) _ hmem
+  simp only [FrameOK] at h
+  obtain ⟨h1, _, h3⟩ := h
+  exact ⟨h1, fun hlt => by cases post <;> simp at h3 <;> omega⟩
+
+/-- non-vacuity: the nested frames of `exRec` with a 3 ms limit, clock +1: the frame of the third activation
+    is on the stack after 8 steps with a deadline of its own -/
+def exRecT : Env := { exRec with cfg := { exRec.cfg with maxExec := 3 }, inc := fun _ => 1 }
+example : (run exRecT 8 (startCall exRecT {} 0)).stack.filterMap (fun f => match f with | .vm t dl _ _ n => some (t, dl, n) | _ => none) =
+    [(3, 9, 1), (2, 6, 2), (1, 3, 2)] := by decide
 
 end Morfuse.Unwind
